@@ -117,7 +117,7 @@ func compare(a, b interface{}, c collate) int {
 		case int64:
 			return cmpInt64(at, bt)
 		case float64:
-			return cmpFloat64(float64(at), bt)
+			return cmpInt64Float64(at, bt)
 		case string, []byte:
 			return -1
 		default:
@@ -128,7 +128,7 @@ func compare(a, b interface{}, c collate) int {
 		case nil:
 			return 1
 		case int64:
-			return cmpFloat64(at, float64(bt))
+			return -cmpInt64Float64(bt, at)
 		case float64:
 			return cmpFloat64(at, bt)
 		case string, []byte:
@@ -171,6 +171,25 @@ func cmpInt64(a, b int64) int {
 	default:
 		return 1
 	}
+}
+
+// compare an integer with a float without losing precision, same logic as
+// SQLite's sqlite3IntFloatCompare().
+func cmpInt64Float64(i int64, r float64) int {
+	if r < -9223372036854775808.0 {
+		return 1
+	}
+	if r >= 9223372036854775808.0 {
+		return -1
+	}
+	y := int64(r)
+	switch {
+	case i < y:
+		return -1
+	case i > y:
+		return 1
+	}
+	return cmpFloat64(float64(i), r)
 }
 
 func cmpFloat64(a, b float64) int {
